@@ -320,6 +320,15 @@ Proof.
   intros rest out. apply (Hn (length rest)). lia.
 Qed.
 
+Lemma sel_compact_chain D lo hi : forall rest out ia, chain D lo (rev out ++ rest) hi -> chain D lo (sel_compact out ia rest) hi.
+Proof.
+  induction rest as [|t rest IH]; intros out ia Hc; cbn [sel_compact].
+  - rewrite app_nil_r in Hc. exact Hc.
+  - destruct (is_wstok t && _).
+    + apply IH. eapply chain_remove; exact Hc.
+    + apply IH. cbn [rev]. rewrite <- app_assoc. exact Hc.
+Qed.
+
 Lemma chain_cons_sub D lo x A A' hi : chain D lo (x :: A) hi ->
   (forall lo', chain D lo' A hi -> chain D lo' A' hi) -> chain D lo (x :: A') hi.
 Proof.
@@ -354,8 +363,8 @@ Proof.
     intros lo' Hx. apply (compact_chain D lo' _ (drop_ws vals) []). cbn [rev app]. apply drop_ws_chain.
     apply drop_ws_chain in Hx. rewrite Edw in Hx. eapply chain_tail; exact Hx.
   - pif H.
-    { ret_inv H. split; [exact Hr1|]. unfold reported. cbn [fst snd push_st set_st set_tok ptt pdata pbuf pl].
-      apply CH_synth; [left; split; [reflexivity|right; reflexivity]|exact Hc1]. }
+    { ret_inv H. split; [exact Hr1|]. unfold reported. cbn [fst snd push_st set_st set_tok set_buf ptt pdata pbuf pl].
+      apply CH_synth; [left; split; [reflexivity|right; reflexivity]|]. apply sel_compact_chain. exact Hc1. }
     pif H; [eapply Herr; exact H|].
     pinv_bind H. eapply IH; [exact H|flds; exact Hr1| |].
     + exists (rest ++ (if (prevws (adjust_level p1 t) || prevcomment (adjust_level p1 t)) && negb (is_wstok r) then [(TWhitespace, [32])] else []) ++ [(t, d)]).
